@@ -10,6 +10,7 @@ import (
 )
 
 const wIDL = "struct S2 {\n  1: i32 x,\n}\nstruct S {\n  1: i32 a,\n  -2: i32 neg,\n  3: list<i32> l,\n  4: map<string,i32> m,\n  6: S2 s,\n}\n"
+const wIDL2 = "struct S2 {\n  1: i32 x,\n}\nstruct S {\n  1: i32 a,\n  3: list<i32> l,\n  4: map<string,i32> m,\n  6: S2 s,\n}\n"
 const wTD = "typedef list<i32> IL\ntypedef S2 TS\nstruct S2 {\n  1: i32 x,\n}\nstruct S {\n  7: IL tl,\n  8: TS ts,\n}\n"
 
 func TestWitness(t *testing.T) {
@@ -28,36 +29,38 @@ func TestWitness(t *testing.T) {
 	ws := []w{}
 	add := func(id string, c maskCase) { ws = append(ws, w{id, "mask", c}) }
 	add(fNegID, one(wIDL, "$.neg"))
-	add(fAtoi, one(wIDL, "$.l[99999999999999999999]"))
-	add(fQuoteEOF, one(wIDL, `$.m{"\`))
-	add(fInt32, one(wIDL, "$.3000000000"))
-	c := one(wIDL, `$.m{"a}`)
+	add(fAtoi, one(wIDL2, "$.l[99999999999999999999]"))
+	add(fQuoteEOF, one(wIDL2, `$.m{"\`))
+	add(fInt32, one(wIDL2, "$.3000000000"))
+	c := one(wIDL2, `$.m{"a}`)
 	c.Mode = "invalid:malformed_unterminated_quote"
 	add(fBadQuote, c)
-	c = one(wIDL, "$.s")
+	c = one(wIDL2, "$.s")
 	c.PathQs = []pathQ{{Path: "$.s.*", Exp: -1}}
 	add(fGetPathStar, c)
-	c = one(wIDL, "$.s")
+	c = one(wIDL2, "$.s")
 	c.Walks = []walkQ{{Keys: []qkey{{K: "f", I: 6}}}}
 	add(fForEachNil, c)
-	add(fForEachEmpty, one(wIDL))
+	add(fForEachEmpty, one(wIDL2))
 	c = one(wTD, "$.tl[1]")
 	c.Exact = true
 	c.PathQs = []pathQ{{Path: "$.tl[1]", Exp: 1}}
 	add(fTypedefPath, c)
-	c = one(wIDL, "$.a", ".s")
+	c = one(wIDL2, "$.a", ".s")
 	c.Mode = "invalid:malformed_no_root"
 	add(fLenientRoot, c)
-	c = one(wIDL, "$.l[1")
+	c = one(wIDL2, "$.l[1")
 	c.Mode = "invalid:malformed_unclosed"
 	add(fLenientList, c)
-	c = one(wIDL)
+	c = one(wIDL2)
 	c.Skip = []string{fForEachEmpty}
 	add(fEmptyRoundTrip, c)
-	add(fStrKeyJSON, one(wIDL, "$.m{\"\\a\"}"))
+	add(fStrKeyJSON, one(wIDL2, "$.m{\"\\a\"}"))
 	c = one(wTD, "$.ts.x")
 	add(fStringTypedef, c)
 	ws = append(ws, w{fNegID + "-json", "json", jsonCase{Class: "hand", Doc: []byte(`{"path":"$","type":"Struct","children":[{"path":-1,"type":"Scalar"}]}`)}})
+	add(fStringNested, maskCase{IDL: "struct S {\n  1: list<list<S>> b,\n}\n", Root: "S", Mode: "valid", Paths: []string{"$.b[*][*]"}})
+	ws = append(ws, w{fFieldNonStruct, "json", jsonCase{Class: "hand", Doc: []byte(`{"path":"$","type":"List","is_black":false,"children":[{"path":0,"type":"Scalar","is_black":false}]}`)}})
 	for _, x := range ws {
 		var err error
 		switch c := x.c.(type) {
